@@ -34,6 +34,14 @@ def run(ck):
         okret = [i for i, j, st in g.statements() if st["s"] == "assign" and st["pl"]["l"] in T.ret_locals(g) and st["rv"]["r"] == "agg" and st["rv"].get("variant") == "Ok" and not g.is_cleanup(i)]
         bad = T.t2_all_exits(g, [x for _, x in ok_e] or [pu[0].to], tok_none, exits=okret or None)
         ck.verdict(bool(tok_none) and bad is None, "2", "T2-all-exits", g, "unregistered=>token-forgotten", "every successful unregister clears the recorded token (events collected before a disable are then ignored)", "Generic::unregister can succeed while keeping its token: an event collected before disable() still reaches the callback", site=g.where(pu[0].bb), path=path_descr(g, bad) if bad else None)
+        # .. and the recorded poller: Drop / unwrap delete the fd from whatever poller is recorded, so a source that keeps
+        # it after a successful unregister deletes, when it is dropped later, a registration that is no longer its own
+        # (the same fd registered again by its replacement)
+        pol_none = [i for i, j, st in T.stores_to_field(g, "poller") if st["rv"]["r"] == "use" and any(v[1] == "None" for v in T.agg_variant(g, st["rv"]["o"]))] + [cs.bb for cs in T.calls(g, name="take") if T.path_has(g, cs.args[0], ".poller")]
+        has_poller_field = any(fl.get("name") == "poller" for v_ in (f.adts.get("sources::generic::Generic") or {}).get("variants", []) for fl in v_.get("fields", []))
+        if has_poller_field:
+            badp = T.t2_all_exits(g, [x for _, x in ok_e] or [pu[0].to], pol_none, exits=okret or None) if pol_none else [0]
+            ck.verdict(bool(pol_none) and badp is None, "2", "T2-all-exits", g, "unregistered=>poller-forgotten", "every successful unregister clears the recorded poller (a later Drop/unwrap deletes nothing)", "Generic::unregister can succeed while keeping its reference to the poller: when that source is dropped or unwrapped later it deletes the fd from the poller again - by then possibly the registration of the source that replaced it", site=g.where(pu[0].bb), path=path_descr(g, badp) if badp and badp != [0] else None)
     t = ck.body("2", "<Timer as EventSource>::unregister")
     forget = [cs.bb for cs in T.calls(t, name=("take", "replace")) if T.path_has(t, cs.args[0], ".registration")] + [i for i, j, st in T.stores_to_field(t, "registration") if st["rv"]["r"] == "use" and any(v[1] == "None" for v in T.agg_variant(t, st["rv"]["o"]))]
     bad = T.t2_all_exits(t, [0], forget) if forget else [0]
@@ -64,6 +72,19 @@ def run(ck):
     di = ck.body("4", "LoopHandle::disable")
     reg = T.calls(di, name=("register", "reregister", "unregister"), trait="EventDispatcher", self_kind=("dyn",))
     ck.verdict(bool(reg) and all(c.name == "unregister" for c in reg), "4", "T8-sibling-agreement", di, "disable-calls-unregister", "disable() calls unregister", "disable() calls %s" % sorted({c.name for c in reg}), site=di.where())
+
+    # every successful enable()/disable()/update() has really asked the dispatcher: no "already in that state, nothing to
+    # do" shortcut decided from a flag the loop keeps on the side (such a flag goes stale as soon as one path - a deferred
+    # request that is later superseded, a Reregister post-action, a TransientSource - changes the registration without it)
+    for q, meth in (("LoopHandle::enable", "register"), ("LoopHandle::disable", "unregister"), ("LoopHandle::update", "reregister")):
+        hb = ck.opt_body(q)
+        if hb is None:
+            ck.anchor_missing("4", "T2-all-exits", q)
+            continue
+        dc = [c.bb for c in T.calls(hb, name=meth, trait="EventDispatcher", self_kind=("dyn",)) if not hb.is_cleanup(c.bb)]
+        okr = [i for i, j, st in hb.statements() if st["s"] == "assign" and st["pl"]["l"] in T.ret_locals(hb) and st["rv"]["r"] == "agg" and st["rv"].get("variant") == "Ok" and not hb.is_cleanup(i)]
+        bad = T.t2_all_exits(hb, [0], dc, exits=okr) if dc and okr else ([0] if not dc else None)
+        ck.verdict(bad is None, "4", "T2-all-exits", hb, "Ok=>dispatcher-asked", "every Ok return of %s has called the dispatcher's %s" % (q, meth), "%s can return Ok without calling the dispatcher's %s (a shortcut taken from bookkeeping kept beside the dispatcher): when that bookkeeping is stale the call silently does nothing - the fd stays in (or out of) the poller" % (q, meth), site=hb.where(), path=path_descr(hb, bad) if bad else None)
 
     # ---- clause 5: shared necessary conditions ---------------------------------------------------------------
     from props import C14, C15, C01
